@@ -3,7 +3,10 @@
 Specs
   ApertureAbs       property-level oracle: clauses C06.partition / floor / ceiling / grow / shrink / smoothed /
                     settles over observables (server set, mock channels, requests, virtual time, the published
-                    gauges scales.loadbalancer.Aperture.{active,idle,load_average}).
+                    gauges scales.loadbalancer.Aperture.{active,idle,load_average}).  The smoothed load is not taken
+                    on trust: the oracle recomputes the 5 s exponential average of the outstanding count from the
+                    recorded get/put events and their microsecond times (integer enclosure of exp, directed
+                    rounding) and C06.smoothed compares the code's average with it on every sample.
   ApertureAbsTrace  batched validation of real-code traces against ApertureAbs (every verdict comes from here).
   Aperture          code-shaped model (heap abstracted to "a least-loaded open active member"; idle / pending /
                     total / abstract EMA / jitter / open-completion callbacks as in the code), ApertureAbs in
@@ -15,6 +18,9 @@ Specs
                     to follow the model instead.)
 Direction B: traffic-level histories over long virtual time on the real balancer with mock channel sinks and a mock
 server set; every get/put is an adjust sample observed at the publication point VarzReceiver.VARZ_DATA.
+Time granularity is a scenario dimension: op `dense` spaces consecutive balancer events by 50 us .. 1 ms, exactly
+1 ms, and mixed fine/coarse patterns; op `approach` steers the published load next to a band edge in coarse steps so
+that the dense phase crosses it.
 random in scales.loadbalancer.{base,heap,aperture} is scripted (seeded, logged); time is the virtual loop clock.
 """
 import os
@@ -27,7 +33,7 @@ PROPS = ['C06']
 LEVEL = {'C06': 'model_checking'}
 TRACE_MODULE = 'ApertureAbsTrace'
 TRACE_CFG = 'ApertureAbsTrace.cfg'
-TRACE_CHUNK = 400
+TRACE_CHUNK = 60
 CASE_TIMEOUT = 300
 ASSUMPTIONS = [
   'virtual-time gevent loop preserves gevent callback FIFO order and timer semantics (selftest)',
@@ -37,6 +43,10 @@ ASSUMPTIONS = [
   'checked on every recorded sample of the real scales.varz.Ema by clause C06.smoothed, not by TLC',
   'the active set identity / healthy count at a sample is read from the heap (internal projection); if unreadable the '
   'shrink and low-side settles clauses are skipped (hB = -1)',
+  'get/put instants lie on the microsecond grid of the virtual clock (the driver advances to absolute targets); the '
+  'reference smoothing is an enclosure computed by TLC in 32-bit integers (width < 0.01 request), compared with the '
+  'code\'s average rounded to 1/1000 request with a slack of 1/1000 (rounding of the record + float arithmetic)',
+  'at most 30 requests outstanding (drivers refuse further dispatches; ApertureAbs.MaxTot)',
   'settles is evaluated with a tolerance of 0.02 on the band edges (residual of the EMA after 10 windows) and only for '
   'max_load > 2*min_load',
   'TLC exhaustive only within the stated constants (members, sizes, outstanding requests, scaled averages)',
@@ -44,13 +54,18 @@ ASSUMPTIONS = [
 RULE = {'C06': 'seeded traffic-level histories (steady phases of k outstanding requests with churn for >= 12 EMA windows, '
                'level changes, member failures, joins/leaves, jitter rounds, delayed/failed opens, fine-grained steps; every 6th script a rolling restart: leaves of the '
                'active member and of its still-connecting replacement with opens held pending, then demand; every 6th a jitter '
-               'round overlapping membership changes) over '
+               'round overlapping membership changes; after every 10th script one at fine time granularity: phases of '
+               '1500-3000 balancer events spaced 50/200/400/900 us, exactly 1 ms, mixed fine/coarse or random patterns, '
+               'completion+dispatch pairs or single events, levels 0..30, busy from the first request / opened by slower '
+               'traffic then short calls back to back / light turning heavy, the published load steered next to a band edge '
+               'first so that it crosses it inside the dense phase) over '
                'configurations min_size 1..3, max_size 1..5, members 1..6, bands (0.5,2) (1,4) (1,3); non-trivial = the '
                'active size changed at least once at an adjust sample or a steady phase of >= 10 windows was evaluated; '
                'distinct by (configuration, sequence of size changes with their causes)'}
 
 SC = 1000
 WIN = 5000
+MAX_OUT = 30      # the drivers keep at most this many requests outstanding (ApertureAbs.MaxTot = 31)
 BANDS = [(0.5, 2.0), (1.0, 4.0), (1.0, 3.0)]
 
 
@@ -197,10 +212,108 @@ def _gen_script(rng, idx):
           'jitter': jitter, 'rseed': rng.randint(0, 1 << 30), 'ops': ops}
 
 
+# time granularity: microseconds between consecutive balancer events
+GAPS_FINE = [[50], [200], [400], [900]]
+GAPS_MIXED = [[1000], [400, 400, 400, 1000], [50, 900, 2000], [200, 5000], [900, 1100], [50, 50, 50, 50, 100000],
+              [400, 1000, 250], [999, 1001], [400, 20000]]
+GAP_POOL = [50, 100, 200, 400, 900, 999, 1000, 1001, 1500, 3000]
+DENSE_EVENTS = 3000      # balancer events per dense phase
+
+
+def _gen_dense(rng, idx):
+  """Traffic at sub-millisecond to millisecond granularity (op `dense`): a client busy from its first request, a
+  client whose aperture was opened by slower traffic and that then issues short calls back to back, light traffic
+  turning heavy, and sequences of phases with different levels and spacings; constant, mixed fine/coarse and random
+  spacings; levels high enough for the smoothed load to cross a band edge within the phase."""
+  band = BANDS[idx % 3] if rng.random() < 0.5 else BANDS[0]
+  min_size = rng.choice([1, 1, 1, 2])
+  max_size = rng.choice([2, 3, 4, 5, 5, 6])
+  members = rng.choice([3, 4, 5, 6, 6])
+  q = rng.random()
+  if q < 0.45:
+    gaps = rng.choice(GAPS_FINE)
+  elif q < 0.8:
+    gaps = rng.choice(GAPS_MIXED)
+  else:
+    gaps = [rng.choice(GAP_POOL) for _ in range(rng.randint(1, 4))]
+
+  def dense(lvl, gp=None, scale=1.0):
+    mode = rng.choice([0, 0, 1, 2, 2])
+    n = int(DENSE_EVENTS * scale) // (1 if mode == 2 else 2)
+    return ['dense', lvl, n, list(gp or gaps), mode]
+
+  def heavy():
+    # the finer the spacing, the higher the level (the phase is short in time)
+    g = sum(gaps) / float(len(gaps))
+    return rng.choice([20, 25, 30]) if g < 150 else rng.choice([9, 12, 20, 30]) if g < 600 else rng.choice([6, 9, 12, 20])
+
+  def margin():
+    # distance (permille of the edge) from which a dense phase of DENSE_EVENTS events reaches the edge
+    g = sum(gaps) / float(len(gaps))
+    return 15 if g < 150 else 40 if g < 600 else 80
+
+  ops = [['opendone', 0, 1] for _ in range(min_size)]
+  ops.append(['auto', 1])
+  kind = idx % 4
+  long_ = 3.0 if rng.random() < 0.1 else 1.0
+  if kind == 0:
+    ops.append(dense(heavy(), scale=long_))
+    ops.append(dense(rng.choice([0, 1, 1, 2])))
+  elif kind == 1:
+    # opened by slower traffic, brought close to min_load in coarse steps, then short calls back to back
+    ops.append(['steady', rng.choice([6, 8, 10, 12]), rng.randint(20, 60), 1000, rng.randint(0, 2)])
+    lvl = rng.choice([0, 1, 1])
+    if rng.random() < 0.8:
+      ops.append(['approach', lvl, 100, 'lo', margin(), 400, 0])
+    else:
+      ops.append(['drain'])
+      ops.append(['adv', rng.choice([1000, 2000, 3000, 5000, 8000])])
+    ops.append(dense(lvl, scale=long_))
+    if rng.random() < 0.5:
+      ops.append(dense(heavy()))
+  elif kind == 2:
+    # light traffic turning heavy, brought close to max_load in coarse steps, then dense
+    ops.append(['steady', rng.choice([1, 1, 2]), rng.randint(5, 20), 1000, rng.randint(0, 2)])
+    lvl = heavy()
+    if rng.random() < 0.7:
+      ops.append(['approach', lvl, 20, 'hi', margin(), 400, 1])
+    ops.append(dense(lvl, scale=long_))
+    ops.append(['steady', rng.choice([1, 2, 3]), rng.randint(5, 30), 1000, rng.randint(0, 2)])
+  else:
+    for _ in range(rng.randint(2, 4)):
+      r = rng.random()
+      if r < 0.7:
+        gp = rng.choice(GAPS_FINE + GAPS_MIXED) if rng.random() < 0.5 else None
+        ops.append(dense(rng.choice([0, 1, 2, 3, 5, 9, 15, 30]), gp, 0.5))
+      elif r < 0.85:
+        ops.append(['steady', rng.choice([1, 3, 6, 10]), rng.randint(5, 30), rng.choice([1000, 2000]), rng.randint(0, 2)])
+      elif r < 0.93:
+        ops.append(['adv', rng.choice([1, 250, 1000, 7000])])
+      else:
+        ops.append(['chan', rng.randint(1, members), rng.choice([4, 2, 3])])
+  ops.append(['drain'])
+  ops.append(['adv', 1000])
+  return {'min_size': min_size, 'max_size': max_size, 'band': list(band), 'members': members,
+          'jitter': 0, 'rseed': rng.randint(0, 1 << 30), 'ops': ops}
+
+
+DENSE_EVERY = 10
+
+
 def cases(prop, tier, seed):
   rng = random.Random(7919 * int(seed) + 6)
   n = 300 if tier == 'quick' else 2500
-  return [_gen_script(rng, i) for i in range(n)]
+  base = [_gen_script(rng, i) for i in range(n)]
+  # the fine-granularity scripts come from their own stream and are spread over the list (even load per TLC chunk)
+  rng2 = random.Random(15485863 * int(seed) + 606)
+  out = []
+  nd = 0
+  for i, sc in enumerate(base):
+    out.append(sc)
+    if i % DENSE_EVERY == DENSE_EVERY - 1:
+      out.append(_gen_dense(rng2, nd))
+      nd += 1
+  return out
 
 
 # ------------------------------------------------------------------ driver
@@ -230,11 +343,20 @@ def run_case(script):
   ev = []
   gauges = {'active': 0, 'idle': 0}
   sample = [None]
-  st = {'t0': loop.now(), 'sink': None, 'proj': 1}
+  st = {'t0': loop.now(), 'sink': None, 'proj': 1, 'load': None}
   rlog = []
 
+  def now_us():
+    return int(round((loop.now() - st['t0']) * 1000000))
+
   def now_ms():
-    return int(round((loop.now() - st['t0']) * 1000))
+    return now_us() // 1000
+
+  def goto_us(us):
+    """run the loop up to `us` microseconds after the start of the trace (absolute target: instants stay on the
+    microsecond grid, no accumulation of float error)"""
+    loop.run_until(st['t0'] + us / 1000000.0)
+    loop.run_until_idle()
 
   def emit(name, **kw):
     d = {'e': name, 't': now_ms(), 'a': int(gauges['active']), 'i': int(gauges['idle'])}
@@ -272,6 +394,7 @@ def run_case(script):
 
   def on_sample(load):
     sink = st['sink']
+    st['load'] = load
     fr = fractions.Fraction(load) * SC
     lo = math.floor(fr)
     hi = math.ceil(fr)
@@ -405,7 +528,7 @@ def run_case(script):
   S = set(range(1, script['members'] + 1))
   cfg = {'minS': script['min_size'], 'maxS': script['max_size'],
          'minL': int(round(script['band'][0] * SC)), 'maxL': int(round(script['band'][1] * SC)),
-         'sc': SC, 'win': WIN, 'tol': 20, 'btol': 2,
+         'sc': SC, 'win': WIN, 'tol': 20, 'btol': 2, 'ref': 1, 'rtol': 1,
          'S0': sorted(S), 'a0': int(gauges['active']), 'i0': int(gauges['idle']), 't0': 0}
   for e in pre:
     e2 = dict(e)
@@ -505,6 +628,7 @@ def run_case(script):
     events caused by the resize that follows come after it and carry the gauges of the returned call."""
     sm = sample[0]
     sample[0] = None
+    d['u'] = now_us() % 1000
     if sm:
       slot = sm.pop('_slot')
       d.update(sm)
@@ -518,7 +642,7 @@ def run_case(script):
       emit(name, **d)
 
   def disp():
-    if not open_ar.ready():
+    if not open_ar.ready() or len(reqs) >= MAX_OUT:
       return
     nreq[0] += 1
     rid = nreq[0]
@@ -543,8 +667,7 @@ def run_case(script):
     istep('Put', m=tc.m, live=tlive)
 
   def adv(ms):
-    loop.run_until(loop.now() + ms / 1000.0)
-    loop.run_until_idle()
+    goto_us(now_us() + ms * 1000)
     emit('Tick')
     istep('Tick')
 
@@ -672,6 +795,91 @@ def run_case(script):
       steady_evals[0] += 1
       auto[0] = save
       continue
+    elif k == 'approach':
+      # input steering on an observable: churn at level `lvl` in coarse ticks until the *published* load_average is
+      # within `pm`/1000 of a band edge ('lo': from above towards min_load, 'hi': from below towards max_load), at
+      # most `maxticks` ticks; the phase that follows (usually a dense one) then crosses the edge.
+      _, lvl, tick, edge, pm, maxticks, order = op
+      save = auto[0]
+      auto[0] = 1
+      do_auto()
+      quiet()
+      if not open_ar.ready():
+        auto[0] = save
+        continue
+      while len(reqs) > lvl:
+        comp(0)
+      while len(reqs) < lvl:
+        n0 = len(reqs)
+        disp()
+        if len(reqs) == n0:
+          break
+      do_auto()
+      quiet()
+      for _ in range(maxticks):
+        ld = st['load']
+        if ld is not None:
+          if edge == 'lo' and script['band'][0] < ld <= script['band'][0] * (1 + pm / 1000.0):
+            break
+          if edge == 'hi' and script['band'][1] > ld >= script['band'][1] * (1 - pm / 1000.0):
+            break
+        adv(tick)
+        if order == 0:
+          comp(0)
+          disp()
+        else:
+          disp()
+          comp(0)
+        do_auto()
+        quiet()
+      auto[0] = save
+      continue
+    elif k == 'dense':
+      # traffic at microsecond granularity: `n` steps, step j advancing the clock by gaps[j % len(gaps)] us and then
+      # mode 0: one completion then one dispatch at that instant; mode 1: dispatch then completion;
+      # mode 2: a single event (completion while `lvl` are outstanding, else dispatch), so that consecutive
+      # balancer events are exactly one gap apart.  Opens complete at once; a quiescent point after every open
+      # and every 50 steps.
+      _, lvl, n, gaps, mode = op
+      save = auto[0]
+      auto[0] = 1
+      do_auto()
+      quiet()
+      if not open_ar.ready():
+        auto[0] = save
+        continue
+      while len(reqs) > lvl:
+        comp(0)
+      while len(reqs) < lvl:
+        n0 = len(reqs)
+        disp()
+        if len(reqs) == n0:
+          break
+      do_auto()
+      quiet()
+      cur = now_us()
+      for j in range(n):
+        cur += gaps[j % len(gaps)]
+        goto_us(cur)
+        if mode == 0:
+          comp(0)
+          disp()
+        elif mode == 1:
+          disp()
+          comp(0)
+        elif reqs and len(reqs) >= max(lvl, 1):
+          comp(0)
+        else:
+          disp()
+        if pending_opens():
+          do_auto()
+          quiet()
+        elif j % 50 == 49:
+          quiet()
+      quiet()
+      steady_evals[0] += 1
+      auto[0] = save
+      continue
     after()
   out_impl = {}
   if impl:
@@ -711,7 +919,10 @@ def extra_coverage(prop, tier, traces):
   """How often the premises of the clauses were exercised by the recorded histories (diagnostic counts)."""
   c = {'samples': 0, 'grow_premise': 0, 'shrink_premise': 0, 'ceiling_premise': 0, 'band_edge_equal': 0,
        'size_changes_outside_samples': 0, 'contractions': 0, 'steady_phases': 0, 'raised_in_balancer': 0,
-       'projection_unreadable': 0}
+       'projection_unreadable': 0,
+       # samples taken less than 1 ms (but not 0) after the previous get/put, and what happened at them
+       'submilli_samples': 0, 'submilli_grow_premise': 0, 'submilli_shrink_premise': 0, 'submilli_resizes': 0,
+       'exact_milli_samples': 0}
   for t in traces:
     cfg = t['cfg']
     m = t.get('meta', {})
@@ -719,9 +930,24 @@ def extra_coverage(prop, tier, traces):
     c['raised_in_balancer'] += len(m.get('raised', []))
     c['projection_unreadable'] += 0 if m.get('proj', 1) else 1
     pa = cfg['a0']
+    pus = None
     for e in t['ev']:
+      gap = None
+      if e['e'] in ('Disp', 'Comp') and 'u' in e and e.get('c', 0) >= 0:
+        us = e['t'] * 1000 + e['u']
+        gap = None if pus is None else us - pus
+        pus = us
       if e['e'] in ('Disp', 'Comp') and e.get('s') == 1:
         c['samples'] += 1
+        if gap is not None and 0 < gap < 1000:
+          c['submilli_samples'] += 1
+          c['submilli_resizes'] += 1 if e['a'] != e['sB'] else 0
+          if e['lo'] >= cfg['maxL'] and e['iB'] > 0 and e['sB'] < cfg['maxS']:
+            c['submilli_grow_premise'] += 1
+          if e['hi'] <= cfg['minL'] and e['hB'] > cfg['minS']:
+            c['submilli_shrink_premise'] += 1
+        elif gap == 1000:
+          c['exact_milli_samples'] += 1
         if e['lo'] >= cfg['maxL'] and e['iB'] > 0 and e['sB'] < cfg['maxS']:
           c['grow_premise'] += 1
         if e['hi'] <= cfg['minL'] and e['hB'] > cfg['minS']:
